@@ -232,6 +232,26 @@ def run(rep):
     alls = any("all(" in ast.unparse(n) for n in ast.walk(sr) if isinstance(n, (ast.If, ast.IfExp, ast.Assign, ast.Return)))
     app = any(e.kind == 'call' and e.target.endswith(".append") and pq.mentions(e.val, lambda y: pq.call_named(y, "py.enumerate")) for p_ in list(spaths) + _loop_paths(pe) for e in p_.effects)
     rep.check(okse and alls and app, "R19.d", rel, "OptionManager.search", "a task is returned iff every criterion matches (re.search) the string form of its option", "", line=sr.lineno)
+    # no state shared between managers: a list / dict created in the class body is one object for all instances, and from_dict /
+    # from_cartesian_product append to it
+    for cdef in [n for n in mod.tree.body if isinstance(n, ast.ClassDef)]:
+        shared = [t.id for n in cdef.body if isinstance(n, ast.Assign) and isinstance(n.value, (ast.List, ast.Dict, ast.Set)) or
+                  (isinstance(n, ast.Assign) and isinstance(n.value, ast.Call) and dotted(n.value.func) in ("list", "dict", "set", "OrderedDict", "defaultdict"))
+                  for t in n.targets if isinstance(t, ast.Name)]
+        mutated = set()
+        for m_ in [x for x in cdef.body if isinstance(x, ast.FunctionDef)]:
+            for n in ast.walk(m_):
+                if isinstance(n, ast.Call) and isinstance(n.func, ast.Attribute) and n.func.attr in ("append", "extend", "update", "insert", "add", "pop", "clear", "setdefault") and \
+                        isinstance(n.func.value, ast.Attribute) and isinstance(n.func.value.value, ast.Name) and n.func.value.attr in shared:
+                    mutated.add(n.func.value.attr)
+                if isinstance(n, ast.Subscript) and isinstance(n.ctx, ast.Store) and isinstance(n.value, ast.Attribute) and n.value.attr in shared:
+                    mutated.add(n.value.attr)
+        init = [x for x in cdef.body if isinstance(x, ast.FunctionDef) and x.name == "__init__"]
+        rebound = {t.attr for x in init for n in ast.walk(x) if isinstance(n, ast.Assign) for t in n.targets
+                   if isinstance(t, ast.Attribute) and isinstance(t.value, ast.Name) and t.value.id == "self"}
+        bad_ = sorted(a for a in mutated if a not in rebound)
+        rep.check(not bad_, "R19.c", rel, cdef.name, f"{cdef.name}: containers that methods fill are created per instance in __init__",
+                  f"class-level {bad_} is one object shared by every instance: a second from_dict / round trip sees the tasks of the first", line=cdef.lineno)
     return EXPLANATION
 
 
